@@ -698,6 +698,11 @@ class Evaluator:
                 # a matrix) is indexing it position by position
                 value = tuple(Poly.atom(("cell", show_atom(at), (
                     Poly.const(k),))) for k in range(len(target.elts)))
+            elif at is not None and at[0] == "var" and isinstance(
+                    at[1], str) and at[1].endswith(".shape"):
+                # rows, cols = a.shape
+                value = tuple(Poly.atom(("cell", at[1], (
+                    Poly.const(k),))) for k in range(len(target.elts)))
             if not isinstance(value, tuple) or len(value) != len(
                     target.elts):
                 raise Unsupported("tuple assignment", target)
